@@ -1,6 +1,6 @@
 // C06 harness: the engine simulator plus a command `rdump` that prints, in hex floats, the internal
 // parameters and accumulators of every restraint-type bias (centres, force constant, stage,
-// first_step, acc_work, restraint_FE, per-variable forces, energy, ABMD reference) and the
+// first_step, acc_work, restraint_FE, per-variable forces and values, energy, ABMD reference) and the
 // "dA/dLambda" log lines emitted since the previous dump.  Reads scenarios from stdin/argv[1].
 #include <cstdio>
 #include <cstdlib>
@@ -34,7 +34,12 @@ struct c06_session : public vsim_session {
   static std::string hexlist(std::vector<colvarvalue> const &v)
   {
     std::string s;
-    for (size_t i = 0; i < v.size(); i++) { if (i) s += ","; s += vs_hex(v[i]); }
+    for (size_t i = 0; i < v.size(); i++) {
+      if (i) s += ",";
+      std::string e = vs_hex(v[i]);           // components of a non-scalar value are joined by '/'
+      std::replace(e.begin(), e.end(), ' ', '/');
+      s += e;
+    }
     return s.size() ? s : "-";
   }
 
@@ -59,6 +64,11 @@ struct c06_session : public vsim_session {
       for (colvarbias *b : proxy->colvars->biases) {
         o << "RD " << b->name << " it=" << cvm::step_absolute() << " E=" << vs_hex(b->get_energy());
         o << " F=" << hexlist(b->colvar_forces);
+        {
+          std::vector<colvarvalue> xv;
+          for (size_t i = 0; i < b->num_variables(); i++) xv.push_back(b->variables(i)->value());
+          o << " X=" << hexlist(xv);
+        }
         if (colvarbias_restraint_centers *c = dynamic_cast<colvarbias_restraint_centers *>(b)) o << " C=" << hexlist(c->colvar_centers);
         if (colvarbias_restraint_k *k = dynamic_cast<colvarbias_restraint_k *>(b)) o << " K=" << vs_hex(k->force_k);
         if (colvarbias_restraint_moving *m = dynamic_cast<colvarbias_restraint_moving *>(b))
